@@ -725,6 +725,7 @@ def opSerde (rest : List String) : M String := do
       | "bool" => pure (Json.bool payload.isEmpty)
       | "unit" => pure Json.null
       | "seq" => pure Json.arr
+      | "tree" => pure (match jsonDoc payload with | some j => j | none => Json.arr)
       | k => throw s!"BADREQ bad value kind {k}"
     match shape with
     | "S" =>
